@@ -165,4 +165,7 @@ def run(ctx):
     R.floor("pool_tables", len(pool_tables), 2)
     for dm in ("reorg", "clear_caches", "commit_changes"):
         T.clause_tables(R, F, dm, only_fields=pool_tables)
+    # what the pool shows is what waits: the pool is read through latest / get_range / all of the versioned table; an entry
+    # removed since the last commit must not reappear from the persisted rows (txpool_content, clear_txpool's expiry scan)
+    T.clause_read_merge(R, F, scans=("get_range", "all"))
     return R
